@@ -1388,6 +1388,31 @@ func (x *c05Ctx) r4() {
 		}
 	}
 	r.Check(len(bad) == 0, "C05.R4", "GracefulClose|wait-outside-lock", pos, sprintf("%d wait(s) on the sampled busyCh with no lock held", len(waits)), strings.Join(bad, "; "))
+	// every return leaves the queue closed: each path to the exit passes the write isClosed = true or a branch that
+	// establishes isClosed (an idle queue - no worker to wait for - must be closed as well, or work queued later runs).
+	if len(closeW) == 1 {
+		var implies func(e ast.Expr, truth bool) bool
+		implies = func(e ast.Expr, truth bool) bool {
+			switch v := ast.Unparen(e).(type) {
+			case *ast.UnaryExpr:
+				if v.Op == token.NOT {
+					return implies(v.X, !truth)
+				}
+			case *ast.BinaryExpr:
+				if v.Op == token.LAND && truth || v.Op == token.LOR && !truth {
+					return implies(v.X, truth) || implies(v.Y, truth)
+				}
+			default:
+				return truth && x.isF(e, x.isClosed)
+			}
+			return false
+		}
+		reach := g.ReachFromEntry(func(n int) bool { return n == closeW[0] }, func(from, idx int, e core.Edge) bool {
+			return e.Cond != nil && e.Tag == nil && e.Branch != 0 && implies(e.Cond, e.Branch == 1)
+		})
+		r.Check(!reach[g.Exit], "C05.R4", "GracefulClose|closed-on-every-return", pos, "every return of GracefulClose is reached with isClosed set (by the write or by a branch that tested it)",
+			"GracefulClose can return without the queue being closed (a path to a return passes neither isClosed = true nor a test that establishes it): work queued afterwards is accepted and runs")
+	}
 }
 
 // ---- R5 ------------------------------------------------------------------
